@@ -151,6 +151,37 @@ class ClipAction(Unit):
         ctx.ensure("the inner result is returned unchanged", z3.BoolVal(ret is res))
 
 
+class SquashActionStep(Unit):
+    """whatever the mode of the wrapper, the action that reaches the wrapped environment lies inside the action bounds: tanh-squashed when squashing,
+    clipped when not - and it is derived from the scaling stored in the graph state"""
+    name = "SquashActionWrapper.step"
+    target = RL + "::SquashActionWrapper.step"
+    props = ("C19",)
+
+    def configs(self):
+        yield "squash", dict(squash=True)
+        yield "clip", dict(squash=False)
+
+    def run(self, ctx):
+        ex = ctx.ex
+        low, high, a = z3.Reals("low high a")
+        ctx.require(low < high)
+        res = (z3.Const("gs2", Leaf),)
+        env, calls = inner_env(res)
+        st = Rec("SquashState", dict(low=low, high=high, squash=ctx.cfg["squash"]), module=RL, frozen=True)
+        w = Rec("SquashActionWrapper", dict(_env=env, squash=ctx.cfg["squash"]), module=RL)
+        gs = Rec("GraphState", dict(aux={"act_scaling": st}), module=BASE, frozen=True)
+        ret = ctx.call(self_obj=w, args=[gs, a])
+        ok = len(calls) == 1
+        ctx.ensure("the wrapped environment is stepped exactly once, with the same graph state", z3.BoolVal(ok and calls[0][0] is gs))
+        if ok:
+            u = toz(calls[0][1])
+            ctx.ensure("C19 the action that reaches the wrapped environment always lies inside the action bounds, whatever the raw action", z3.And(low <= u, u <= high))
+            ctx.ensure("C19 ... and is the stored scaling's unsquash of the raw action (tanh-squash, or clip when squashing is off)",
+                       u == (low + (smt.TANH(a) + 1) / 2 * (high - low) if ctx.cfg["squash"] else z3.If(a < low, low, z3.If(a > high, high, a))))
+        ctx.ensure("the inner result is returned unchanged", z3.BoolVal(ret is res))
+
+
 class RunningMoments(Unit):
     """Chan's parallel update as written in NormalizeVecObservationWrapper.step / NormalizeVecReward.step:
     if (mean, var, count) are the moments of a weighted collection A then the new values are the moments of A together with the batch"""
@@ -213,7 +244,7 @@ class RunningMoments(Unit):
 RunningMoments.replay = lambda self, label, clause, probes, model: ({"kind": "pure", "which": "reward_norm", "probes": probes} if self.which == "NormalizeVecReward" else None)
 
 
-UNITS = [EnvStep(), AutoReset(), LogStep(), Squash(), ClipAction(), RunningMoments("NormalizeVecObservationWrapper"), RunningMoments("NormalizeVecReward")]
+UNITS = [EnvStep(), AutoReset(), LogStep(), Squash(), SquashActionStep(), ClipAction(), RunningMoments("NormalizeVecObservationWrapper"), RunningMoments("NormalizeVecReward")]
 EXTRA = dict(assumptions=["tanh / arctanh axioms (range, monotone, mutual inverses); floats as reals",
                           "jnp.mean / jnp.var of a batch are its mean and (population) variance: the batch statistics are symbols in the moment-merge identity",
                           "the running statistics start from a pseudo-observation of weight 1e-4 (mean 0, var 1): 'everything seen so far' includes that prior (DESIGN 6/C19)",
